@@ -668,8 +668,12 @@ class World:
         ctx.log("call", "ok", _sig=name)
 
     # -- aliasing probes ------------------------------------------------------------------------------------
+    # operations whose result shares objects with an argument in the UNCHANGED library (surveyed with `is` over
+    # results, term lists, term objects): constructors keeping the caller's container, bind/dagger returning the
+    # receiver, cached lists, simplify keeping lone terms, `term + number` wrapping the very term object
     ALIAS_BY_DESIGN = {"m_new", "w_new", "p_sum_from_terms", "w_bind", "p_circuits", "p_terms", "c_ops_nq", "c_split",
-                       "cl_sum", "p_copy", "g_dagger", "g_bind", "c_bind", "p_simplify", "p_add", "p_sub", "p_mul"}
+                       "cl_sum", "p_copy", "g_dagger", "g_bind", "c_bind", "p_simplify", "p_num_r", "p_num_l",
+                       "p_add", "p_sub", "p_add_self"}  # term + term builds PauliSum([self, other]) around the very objects
 
     def _probe_result_alias(self, ctx, st, name, results, before):
         """The client edits the (second, otherwise discarded) result through its public interface; no object that
@@ -678,11 +682,25 @@ class World:
             return
         r1, r2 = results
         L = st["L"]
-        if r2 is r1 or any(r2 is o for _, o in st["pool"]):
-            return
+        # (a result that IS one of the pool objects, or the same object on both calls, is not skipped: for the
+        # operations probed here the unchanged library always builds a new object, so that is the very aliasing
+        # the probe looks for - editing it shows up in the snapshot of the object it is shared with)
         done = False
         try:
-            if isinstance(r2, L["Wavefunction"]) and not r2.free_symbols and len(r2) >= 1:
+            if isinstance(r2, L["PauliSum"]):
+                # PauliSum arithmetic copies terms (anchor): the result's terms are the client's to edit
+                if len(r2.terms):
+                    r2.terms[0].coefficient = r2.terms[0].coefficient * 2 + 1
+                if isinstance(r2.terms, list):
+                    r2.terms.append(L["PauliTerm"]("X0"))
+                done = True
+            elif isinstance(r2, L["PauliTerm"]):
+                r2.coefficient = r2.coefficient * 2 + 1
+                done = True
+            elif isinstance(r2, sympy.MutableDenseMatrix) and r2.shape[0] >= 1:
+                r2[0, 0] = r2[0, 0] + 1
+                done = True
+            elif isinstance(r2, L["Wavefunction"]) and not r2.free_symbols and len(r2) >= 1:
                 r2[0] = -1 * complex(np.asarray(r2.amplitudes).reshape(-1)[0])
                 done = True
             elif isinstance(r2, L["Measurements"]) and isinstance(r2.bitstrings, list) and r2.bitstrings:
